@@ -67,8 +67,51 @@ func readConfigFile(config_file string) string {
 		log.Fatalf("Couldn't read config file %q: %s", config_file, err.Error())
 	}
 
-	return os.Expand(string(data), expandVars)
+	return expandConfig(string(data))
 
+}
+
+// expandConfig substitutes $NAME and ${NAME} for the variables known to expandVars
+// and leaves any other '$' sequence (such as $1 or ${1} in rewriter and aggregation templates) untouched.
+// (os.Expand can't be used for that: it consumes the braces, and invalid sequences like "${}", before we get a say)
+func expandConfig(s string) string {
+	isNameChar := func(c byte) bool {
+		return c == '_' || (c >= '0' && c <= '9') || (c >= 'a' && c <= 'z') || (c >= 'A' && c <= 'Z')
+	}
+	var out strings.Builder
+	for i := 0; i < len(s); {
+		if s[i] != '$' {
+			out.WriteByte(s[i])
+			i++
+			continue
+		}
+		// s[i] is '$'. see which name follows, and how many bytes the reference takes in total
+		start := i + 1
+		braced := start < len(s) && s[start] == '{'
+		if braced {
+			start++
+		}
+		end := start
+		for end < len(s) && isNameChar(s[end]) {
+			end++
+		}
+		name := s[start:end]
+		if braced {
+			if end < len(s) && s[end] == '}' {
+				end++
+			} else {
+				name = "" // not a well formed ${NAME}
+			}
+		}
+		if val := expandVars(name); name != "" && val != "$"+name {
+			out.WriteString(val)
+			i = end
+			continue
+		}
+		out.WriteByte('$')
+		i++
+	}
+	return out.String()
 }
 
 func expandVars(in string) (out string) {
